@@ -93,7 +93,7 @@ BAD = ["#/$defs/S/~2", "#/$defs/S/~", "#/$defs/S/nosuch", "#/$defs/S/allOf/01", 
        "#/$defs/S/allOf/4294967297", "#/$defs/S/allOf/9223372036854775808", "#/$defs/S/allOf/36893488147419103232",
        "#/$defs/S/allOf/340282366920938463463374607431768211456", "#/$defs/S/allOf/00", "#/$defs/S/allOf/0.0", "#/$defs/S/allOf/1_0",
        "#/$defs/S/allOf/%30%30", "#/$defs/S/allOf/0%20", "#/$defs/S/allOf/", "#/$defs/S/allOf/0/x", "#/$defs/S/allOf/0~0",
-       "#$defs/S", "#//$defs/S", "#/$defs/S/allOf/0#", "#/$defs/s", "#/$DEFS/S", "#/$defs/S/properties/a+b", "#/$defs/S/properties/a%20b"]
+       "#$defs/S", "#//$defs/S", "#/$defs/S/allOf/0#", "#/$defs/s", "#/$DEFS/S"]
 
 
 def gen(rng, tier, n):
@@ -132,8 +132,7 @@ def gen(rng, tier, n):
                 b = rng.choice(BAD)
                 rest = b[len("#/$defs/S/"):] if b.startswith("#/$defs/S/") else ""
                 first = rest.split("/")[0]
-                if first in ("not", "if", "items", "properties", "default", "examples", "title") and first in keys and not rest.endswith("nosuch") \
-                        and not rest.startswith("properties/a"):
+                if first in ("not", "if", "items", "properties", "default", "examples", "title") and first in keys and not rest.endswith("nosuch"):
                     continue
                 break
             b = b.replace("$defs", defs_kw)
